@@ -56,10 +56,8 @@ type decision struct {
 
 func (d decision) String() string {
 	name := consts.OutboundIndex(d.ob).String()
-	if d.ob == groupG1 {
-		name = "g1"
-	} else if d.ob == groupG2 {
-		name = "g2"
+	if d.ob >= uint8(consts.OutboundUserDefinedMin) && d.ob <= uint8(consts.OutboundUserDefinedMax) {
+		name = groupName(d.ob)
 	}
 	return fmt.Sprintf("%s/mark=%#x/must=%v", name, d.mark, d.must)
 }
@@ -74,10 +72,10 @@ type mflow struct {
 
 type model struct {
 	now     uint64
-	progB   bool    // the second rule program is active
-	learned bool    // the control plane learned that the remote address belongs to d.example
-	dead    [2]bool // group g1 health bit down: [tcp, udp] for the scenario's family
-	full    bool    // conn_state_map accepts no new flow
+	progB   bool       // the second rule program is active
+	learned bool       // the control plane learned that the remote address belongs to d.example
+	dead    [2][2]bool // health bit down: [g1 | the high-id group][tcp | udp] for the scenario's family
+	full    bool       // conn_state_map accepts no new flow
 	flows   []mflow
 }
 
@@ -103,14 +101,20 @@ func (m *model) canon(b []byte) []byte {
 	if m.learned {
 		fl |= 2
 	}
-	if m.dead[0] {
+	if m.dead[0][0] {
 		fl |= 4
 	}
-	if m.dead[1] {
+	if m.dead[0][1] {
 		fl |= 8
 	}
 	if m.full {
 		fl |= 16
+	}
+	if m.dead[1][0] {
+		fl |= 32
+	}
+	if m.dead[1][1] {
+		fl |= 64
 	}
 	b = append(b, fl)
 	for i := range m.flows {
@@ -258,16 +262,35 @@ func (sc *scenario) outcome(m *model, c *conv, d decision) expect {
 	case d.ob == uint8(consts.OutboundBlock):
 		return expect{kind: xDrop, why: "traffic routed to block is dropped"}
 	}
-	if d.ob == groupG1 && c.dst.Port() != 53 {
+	if g := sc.groupIndex(d.ob); g >= 0 && c.dst.Port() != 53 {
 		i := 0
 		if c.proto == ipUDP {
 			i = 1
 		}
-		if m.dead[i] {
+		if m.dead[g][i] {
 			return expect{kind: xDrop, why: "traffic routed to a proxy group whose health bit for that protocol and family is down is dropped"}
 		}
 	}
 	return expect{kind: xHandover, rec: rec, why: "traffic routed to a proxy group is redirected to dae together with a per-flow record"}
+}
+
+// groupIndex: 0 for g1, 1 for the scenario's high-id group, -1 for groups whose health never changes here.
+func (sc *scenario) groupIndex(ob uint8) int {
+	switch {
+	case ob == groupG1:
+		return 0
+	case sc.hiGroup != 0 && ob == sc.hiGroup:
+		return 1
+	}
+	return -1
+}
+
+// stepAll applies an event as often as it injects its frame (a burst: twice).
+func (sc *scenario) stepAll(m *model, ev *event) {
+	sc.step(m, ev)
+	if ev.kind == evFrame && ev.burst {
+		sc.step(m, ev)
+	}
 }
 
 func (m *model) expire(i int, proto uint8) {
@@ -301,11 +324,14 @@ func (sc *scenario) step(m *model, ev *event) expect {
 		return expect{}
 	case evFlip:
 		if !ev.otherFamily {
-			i := 0
+			i, g := 0, 0
 			if ev.udp {
 				i = 1
 			}
-			m.dead[i] = !m.dead[i]
+			if ev.hiGroup {
+				g = 1
+			}
+			m.dead[g][i] = !m.dead[g][i]
 		}
 		return expect{}
 	case evFull:
